@@ -119,7 +119,7 @@ func patchFields(e *ref.Enc, match func(name string) bool, f func(b []byte, name
 
 func runC04(c *core.Ctx) {
 	// (0) every canonical reference encoding decodes to the model value
-	c.Section("canonical", c.N(600000, 8000000), func(cs *core.Case) {
+	c.Section("canonical", c.N(600000, 24000000), func(cs *core.Case) {
 		k := gen.Registered[cs.Idx%uint64(len(gen.Registered))]
 		v := gen.Packet(cs.R, k, gen.Opts{})
 		e, err := ref.Encode(v, ref.Lib)
@@ -163,7 +163,7 @@ func runC04(c *core.Ctx) {
 		c04Decode(cs, "rfc-dialect/CCFB", gen.CCFB, e.B, v, v, kfs...)
 	})
 	// (1) TWCC chunkings
-	c.Section("twcc-chunkings", c.N(50000, 1500000), func(cs *core.Case) {
+	c.Section("twcc-chunkings", c.N(50000, 5000000), func(cs *core.Case) {
 		r := cs.R
 		m := gen.TWCCModelGen(r, gen.Opts{NoBig: !r.Chance(1, 100)})
 		want := modelProjection(m)
@@ -222,7 +222,7 @@ func runC04(c *core.Ctx) {
 		}
 	})
 	// (2) unnormalised REMB pairs
-	c.Section("remb-pairs", c.N(60000, 1500000), func(cs *core.Case) {
+	c.Section("remb-pairs", c.N(60000, 6000000), func(cs *core.Case) {
 		r := cs.R
 		// odd-or-small mantissa m0 and exponent e0; every (m0<<k, e0-k) denotes the same value
 		m0 := uint32(r.Intn(1 << 18))
@@ -282,7 +282,7 @@ func runC04(c *core.Ctx) {
 		}
 	})
 	// (4) reserved bits / stray bits / unknown XR blocks
-	c.Section("reserved-bits", c.N(80000, 2000000), func(cs *core.Case) {
+	c.Section("reserved-bits", c.N(80000, 8000000), func(cs *core.Case) {
 		r := cs.R
 		switch cs.Idx % 3 {
 		case 0: // XR
@@ -357,7 +357,7 @@ func runC04(c *core.Ctx) {
 		}
 	})
 	// (6) count inflation: all (c, c') for SR, RR, SDES, BYE
-	c.Section("count-inflation", c.N(20000, 400000), func(cs *core.Case) {
+	c.Section("count-inflation", c.N(20000, 2000000), func(cs *core.Case) {
 		r := cs.R
 		kinds := []gen.Kind{gen.SR, gen.RR, gen.SDES, gen.BYE}
 		k := kinds[cs.Idx%4]
